@@ -193,7 +193,7 @@ theorem interp_prim (ext : Ext) (o : TraceOpts) (p : Prim) (v : Val) (nb : Bool)
     cases v <;> simp [Prim.wt] at h
     simp only [ser, lv, primDT, strDT]
     by_cases hd : o.stringDictionaryEncoding = true <;> by_cases hl : o.stringsAsLargeUtf8 = true <;>
-      simp [hd, hl, interpDT, isUnknownVariant, interpScalar, scalarToString, strBytes]
+      simp [hd, hl, interpDT, isUnknownVariant, interpScalar, interpDictStr, scalarToString, strBytes]
   | bytes =>
     cases v <;> simp [Prim.wt] at h
     simp [ser, lv, primDT, interpDT, isUnknownVariant, interpScalar]
@@ -549,7 +549,9 @@ theorem interp_serO (ext : Ext) (o : TraceOpts) : ∀ (t : Ty) (v : Val) (nb : B
           simp only [strOK, hform, if_true, hg] at hk
           cases kind with
           | unit =>
-            simp [ser, lvO, hg, hform, interpDT, interpScalar, scalarToString, strBytes]
+            have hst : interpDictStr ext (strDT o) vn = .ok (.str (strBytes vn)) := by
+              unfold strDT; split <;> rfl
+            simp [ser, lvO, hg, hform, interpDT, interpScalar, scalarToString, hst, strBytes]
           | _ => simp at hk
         · -- the Union form
           have hform' : (vars.withoutData && o.enumsWithoutDataAsStrings) = false := by simpa using hform
